@@ -19,6 +19,7 @@ var hostScenarios = []string{
 	"legal_traffic",
 	"blacklisted",
 	"blacklisted_mapped", // the configuration spells the IPv4 address as IPv4-mapped IPv6
+	"solicited_excess",   // A itself requests more than its limit from B within an interval: B's RESPONSES exceed A's limit
 }
 
 type hObs struct {
@@ -155,7 +156,7 @@ func runHosts(name string) (rec hRec) {
 	aLimInterval := time.Duration(0)
 	var aBlacklist []string
 	switch name {
-	case "rate_excess":
+	case "rate_excess", "solicited_excess":
 		aPing.Limit, aPing.Penalty = 3, 100
 	case "legal_traffic":
 		aPing.Limit, aPing.Penalty = 5, 100
@@ -259,6 +260,16 @@ func runHosts(name string) (rec hRec) {
 		ok := 0
 		for i := 0; i < 4; i++ { // the 4th message exceeds the limit of 3
 			_, err := b.Request(ctx, a.ID(), "ping", []byte("x"), 500*time.Millisecond)
+			if err == nil {
+				ok++
+			}
+			obs.RequestErrs = append(obs.RequestErrs, errStr(err))
+		}
+		obs.RepliesOK = ip_(ok)
+	case "solicited_excess":
+		ok := 0
+		for i := 0; i < 4; i++ { // the 4th RESPONSE exceeds A's limit of 3 received messages for the procedure
+			_, err := a.Request(ctx, b.ID(), "ping", []byte("x"), 500*time.Millisecond)
 			if err == nil {
 				ok++
 			}
